@@ -79,12 +79,19 @@ Definition space_of (m : list (N * space)) (k : N) : space := match sget m k wit
 
 Definition pos_valid (v : option val) : bool := match v with Some (VPos x) => negb (Z.eqb x 0) | _ => false end.
 
-Definition dstmt (att : lstate) (t : tree) (dk : list (string * kid dtree)) (acc : tree) (s : nstmt) : tree :=
+(* a new dst node has every decoration point of its kind, empty *)
+Definition new_node (du : list (string * list string)) (id : N) (ty : string) : tree :=
+  Node id ty [] [] (match lookup du ty with Some ps => map (fun p => (p, [])) ps | None => [] end) SNone SNone.
+
+Definition upd_decs (t : tree) (p : string) (d : list dec) : tree :=
+  match t with Node id k vals kids decs b a => Node id k vals kids (upd decs p d) b a end.
+
+Definition dstmt (du : list (string * list string)) (att : lstate) (t : tree) (dk : list (string * kid dtree)) (acc : tree) (s : nstmt) : tree :=
   match s with
   | NSpace after => set_space acc after (space_of (if after then l_after att else l_before att) (tid t))
   | NInit p ty =>
     let id := match dsub dk p with Some (One (Some c)) => tid (dt_tree c) | _ => 0%N end in
-    set_kid acc p (One (Some (Node id ty [] [] [] SNone SNone)))
+    set_kid acc p (One (Some (new_node du id ty)))
   | NNode p o _ _ _ _ =>
     match dsub dk p with
     | Some (One (Some c)) => set_kid acc o (One (Some (dt_res c)))
@@ -109,28 +116,28 @@ Definition dstmt (att : lstate) (t : tree) (dk : list (string * kid dtree)) (acc
         end
       else acc
     end
-  | NDecs points => set_decs acc (map (fun p => (p, dget (l_decs att) (tid t, p))) points)
+  | NDecs points => fold_left (fun acc p => upd_decs acc p (dget (l_decs att) (tid t, p))) points acc
   | _ => acc
   end.
 
-Definition dnode (tbl : list (string * list nstmt)) (att : lstate) (t : tree) (dk : list (string * kid dtree)) : tree :=
+Definition dnode (du : list (string * list string)) (tbl : list (string * list nstmt)) (att : lstate) (t : tree) (dk : list (string * kid dtree)) : tree :=
   match lookup tbl (tkind t) with
-  | Some stmts => fold_left (dstmt att t dk) stmts (Node (tid t) (tkind t) [] [] [] SNone SNone)
+  | Some stmts => fold_left (dstmt du att t dk) stmts (new_node du (tid t) (tkind t))
   | None => Node (tid t) "?" [] [] [] SNone SNone
   end.
 
-Fixpoint dbuild (tbl : list (string * list nstmt)) (att : lstate) (t : tree) : dtree :=
+Fixpoint dbuild (du : list (string * list string)) (tbl : list (string * list nstmt)) (att : lstate) (t : tree) : dtree :=
   match t with
   | Node id k vals kids decs b a =>
     let dk := map (fun p => (fst p, match snd p with
-                                    | One (Some c) => One (Some (dbuild tbl att c))
+                                    | One (Some c) => One (Some (dbuild du tbl att c))
                                     | One None => One None
-                                    | Many l => Many (map (dbuild tbl att) l)
+                                    | Many l => Many (map (dbuild du tbl att) l)
                                     end)) kids in
-    DT t (dnode tbl att t dk) dk
+    DT t (dnode du tbl att t dk) dk
   end.
 
-Definition decorate (tbl : list (string * list nstmt)) (att : lstate) (t : tree) : tree := dt_res (dbuild tbl att t).
+Definition decorate (du : list (string * list string)) (tbl : list (string * list nstmt)) (att : lstate) (t : tree) : tree := dt_res (dbuild du tbl att t).
 
 (* ---- table obligations about decorations ------------------------------------------------------ *)
 (* every decoration point the fragment emitter offers for a kind is stored by that kind's
